@@ -44,16 +44,11 @@ fn bools<const N: usize>(bs: &[bool; N]) -> Vec<LhsValue<'static>> {
 }
 
 /// any <=> some element true; all <=> every element true (all of empty = true).
-fn reduce<const N: usize>() {
+fn reduce_iter<const N: usize>() {
     let bs: [bool; N] = kani::any();
     let (some, every) = reference(&bs);
     assert!(QuantifierOp::Any.reduce_bool_iter(bs.iter().copied()) == some, "any() is true iff some element is true");
     assert!(QuantifierOp::All.reduce_bool_iter(bs.iter().copied()) == every, "all() is true iff every element is true");
-    // the same through an Array(Bool) value (direct array argument), borrowed view
-    let arr = array_owned(Type::Bool, bools(&bs));
-    assert!(QuantifierOp::Any.reduce_lhs_array(arr.as_ref()) == some, "any() of an array value");
-    assert!(QuantifierOp::All.reduce_lhs_array(arr.as_ref()) == every, "all() of an array value");
-    std::mem::forget(arr);
     if N == 0 {
         assert!(every && !some, "all of an empty result is true, any is false");
     }
@@ -61,21 +56,51 @@ fn reduce<const N: usize>() {
 }
 
 #[kani::proof]
-#[kani::unwind(4)]
+#[kani::unwind(2)]
+fn quantifier_reduce_bool_iter__any_all_n0() {
+    reduce_iter::<0>()
+}
+
+#[kani::proof]
+#[kani::unwind(3)]
+fn quantifier_reduce_bool_iter__any_all_n1() {
+    reduce_iter::<1>()
+}
+
+#[kani::proof]
+#[kani::unwind(6)]
+fn quantifier_reduce_bool_iter__any_all_n4() {
+    reduce_iter::<4>()
+}
+
+/// The same through an Array(Bool) VALUE (direct array argument), borrowed view.
+fn reduce<const N: usize>() {
+    let bs: [bool; N] = kani::any();
+    let (some, every) = reference(&bs);
+    let arr = array_owned(Type::Bool, bools(&bs));
+    assert!(QuantifierOp::Any.reduce_lhs_array(arr.as_ref()) == some, "any() of an array value");
+    assert!(QuantifierOp::All.reduce_lhs_array(arr.as_ref()) == every, "all() of an array value");
+    std::mem::forget(arr);
+    kani::cover!(some && !every || N < 2);
+}
+
+#[kani::proof]
+#[kani::unwind(2)]
 fn quantifier_reduce__any_all_n0() {
     reduce::<0>()
 }
 
 #[kani::proof]
-#[kani::unwind(5)]
+#[kani::unwind(2)]
 fn quantifier_reduce__any_all_n1() {
     reduce::<1>()
 }
 
 #[kani::proof]
-#[kani::unwind(7)]
-fn quantifier_reduce__any_all_n3() {
-    reduce::<3>()
+#[kani::stub(std::mem::drop, crate::lhs_types::verif_kani::common::mem_drop__releases_nothing_observable)]
+#[kani::unwind(3)]
+fn quantifier_reduce__any_all_n2() {
+    reduce::<2>()
 }
 
 /// The owned representation (the value a compiled index expression hands over).
@@ -88,7 +113,8 @@ fn reduce_owned<const N: usize>() {
 }
 
 #[kani::proof]
-#[kani::unwind(6)]
+#[kani::stub(std::mem::drop, crate::lhs_types::verif_kani::common::mem_drop__releases_nothing_observable)]
+#[kani::unwind(3)]
 fn quantifier_reduce__owned_array_n2() {
     reduce_owned::<2>()
 }
@@ -258,6 +284,7 @@ fn combining_vec<const N: usize, const L0: usize, const L1: usize, const L2: usi
 macro_rules! combining {
     ($name:ident, $unwind:literal, $n:literal, $l0:literal, $l1:literal, $l2:literal, $op:expr) => {
         #[kani::proof]
+        #[kani::stub(std::mem::drop, crate::lhs_types::verif_kani::common::mem_drop__releases_nothing_observable)]
         #[kani::unwind($unwind)]
         fn $name() {
             combining_vec::<$n, $l0, $l1, $l2>($op)
@@ -265,15 +292,15 @@ macro_rules! combining {
     };
 }
 
-combining!(combining_vec__or_2_1, 5, 2, 2, 1, 0, LogicalOp::Or);
-combining!(combining_vec__and_2_1, 5, 2, 2, 1, 0, LogicalOp::And);
-combining!(combining_vec__xor_2_1, 5, 2, 2, 1, 0, LogicalOp::Xor);
-combining!(combining_vec__or_1_2, 5, 2, 1, 2, 0, LogicalOp::Or);
-combining!(combining_vec__and_1_2, 5, 2, 1, 2, 0, LogicalOp::And);
-combining!(combining_vec__xor_1_2, 5, 2, 1, 2, 0, LogicalOp::Xor);
-combining!(combining_vec__or_2_2_1, 5, 3, 2, 2, 1, LogicalOp::Or);
-combining!(combining_vec__and_2_2_1, 5, 3, 2, 2, 1, LogicalOp::And);
-combining!(combining_vec__xor_2_2_1, 5, 3, 2, 2, 1, LogicalOp::Xor);
+combining!(combining_vec__or_2_1, 3, 2, 2, 1, 0, LogicalOp::Or);
+combining!(combining_vec__and_2_1, 3, 2, 2, 1, 0, LogicalOp::And);
+combining!(combining_vec__xor_2_1, 3, 2, 2, 1, 0, LogicalOp::Xor);
+combining!(combining_vec__or_1_2, 3, 2, 1, 2, 0, LogicalOp::Or);
+combining!(combining_vec__and_1_2, 3, 2, 1, 2, 0, LogicalOp::And);
+combining!(combining_vec__xor_1_2, 3, 2, 1, 2, 0, LogicalOp::Xor);
+combining!(combining_vec__or_2_2_1, 4, 3, 2, 2, 1, LogicalOp::Or);
+combining!(combining_vec__and_2_2_1, 4, 3, 2, 2, 1, LogicalOp::And);
+combining!(combining_vec__xor_2_2_1, 4, 3, 2, 2, 1, LogicalOp::Xor);
 
 /// `not v` on a bool array: element-wise negation, same length.
 fn not_vec<const L: usize>() {
@@ -297,13 +324,15 @@ fn not_vec<const L: usize>() {
 }
 
 #[kani::proof]
-#[kani::unwind(5)]
+#[kani::stub(std::mem::drop, crate::lhs_types::verif_kani::common::mem_drop__releases_nothing_observable)]
+#[kani::unwind(3)]
 fn unary_not_vec__elementwise_n2() {
     not_vec::<2>()
 }
 
 #[kani::proof]
-#[kani::unwind(4)]
+#[kani::stub(std::mem::drop, crate::lhs_types::verif_kani::common::mem_drop__releases_nothing_observable)]
+#[kani::unwind(2)]
 fn unary_not_vec__elementwise_n0() {
     not_vec::<0>()
 }
@@ -327,13 +356,15 @@ fn quantifier_logical<const L: usize>() {
 }
 
 #[kani::proof]
-#[kani::unwind(5)]
+#[kani::stub(std::mem::drop, crate::lhs_types::verif_kani::common::mem_drop__releases_nothing_observable)]
+#[kani::unwind(3)]
 fn quantifier_logical__any_all_n2() {
     quantifier_logical::<2>()
 }
 
 #[kani::proof]
-#[kani::unwind(4)]
+#[kani::stub(std::mem::drop, crate::lhs_types::verif_kani::common::mem_drop__releases_nothing_observable)]
+#[kani::unwind(2)]
 fn quantifier_logical__any_all_n0() {
     quantifier_logical::<0>()
 }
@@ -366,13 +397,15 @@ fn quantifier_direct<const L: usize>() {
 }
 
 #[kani::proof]
-#[kani::unwind(5)]
+#[kani::stub(std::mem::drop, crate::lhs_types::verif_kani::common::mem_drop__releases_nothing_observable)]
+#[kani::unwind(3)]
 fn quantifier_direct__present_or_absent_n2() {
     quantifier_direct::<2>()
 }
 
 #[kani::proof]
-#[kani::unwind(4)]
+#[kani::stub(std::mem::drop, crate::lhs_types::verif_kani::common::mem_drop__releases_nothing_observable)]
+#[kani::unwind(2)]
 fn quantifier_direct__present_or_absent_n0() {
     quantifier_direct::<0>()
 }
